@@ -19,7 +19,7 @@ RULE = ("Hypothesis-generated histories (1-30 ops) on a pool of 1-4 maps; addres
         "followed by a successful implicit placement on the same map, and >=1 explicit placement "
         "below the highest range already placed in that map. Distinct = distinct canonical JSON.")
 BUDGET = {"quick": (16, 1500), "thorough": (16, 40000)}
-ESSENTIAL = ["fail_then_implicit_ok", "explicit_before_existing", "touch_end", "dense_ratio_gt1",
+ESSENTIAL = ["name_reused_after_refusal", "fail_then_implicit_ok", "explicit_before_existing", "touch_end", "dense_ratio_gt1",
              "frozen_add_refused", "window_ok", "grey_zone"]
 ASSUMPTIONS = [
     "resource/window names are unique counters, so a namespace conflict is never the reason for a refusal (C18 covers names)",
@@ -174,7 +174,14 @@ def check(spec, stats):
     placements = 0
     failed_on = set()
 
-    def fresh_name():
+    retry = {}
+
+    def fresh_name(i=None):
+        # a name whose add was refused was never registered: the next add on that map re-uses it, so
+        # that a refusal that nevertheless reserved the name shows up as a refused legal call
+        if i is not None and i in retry:
+            stats.label("name_reused_after_refusal")
+            return retry.pop(i)
         counter[0] += 1
         return (f"n{counter[0]}",)
 
@@ -213,6 +220,8 @@ def check(spec, stats):
                 raise Violation("C02/atomicity/queries-changed", f"{where}: raised {type(e).__name__} "
                                 f"but query results changed")
             failed_on.add(i)
+            if name is not None and len(name) == 1 and name[0].startswith("n"):
+                retry[i] = name
             stats.label("refused_call")
             if mm.frozen:
                 stats.label("frozen_add_refused")
@@ -260,7 +269,7 @@ def check(spec, stats):
         if k == "res":
             _, _, size, addr, al = op
             obj = new_res()
-            name = fresh_name()
+            name = fresh_name(i)
             bad = False
             if isinstance(size, str):
                 size_v = {"neg": -1, "str": "4"}[size]; bad = True
@@ -281,7 +290,7 @@ def check(spec, stats):
                 kwargs["alignment"] = al
             fn = lambda: m.add_resource(obj, **kwargs)
             if bad or mm.frozen:
-                attempt(i, fn, where, must="raise")
+                attempt(i, fn, where, must="raise", name=name)
             else:
                 span = align_up(max(size_v, 1), eff)
                 if addr_v is None:
@@ -290,7 +299,7 @@ def check(spec, stats):
                     attempt(i, fn, where, must="ok" if valid else "raise", predict=start, kind="res",
                             obj=obj, name=name, min_span=span)
                 elif addr_v % (1 << mm.al) != 0:
-                    attempt(i, fn, where, must="raise")
+                    attempt(i, fn, where, must="raise", name=name)
                 else:
                     start = addr_v
                     valid = start + span <= (1 << mm.aw) and not mm.overlaps(start, start + span)
@@ -357,7 +366,7 @@ def check(spec, stats):
             if j <= i:
                 continue
             c, cm = maps[j], model[j]
-            name = fresh_name() if named else None
+            name = fresh_name(i) if named else None
             must_raise = mm.frozen or any(it[1] is c for it in mm.items)
             if cm.dw > mm.dw:
                 must_raise = True
@@ -387,7 +396,7 @@ def check(spec, stats):
                 kwargs["sparse"] = sparse
             fn = lambda: m.add_window(c, **kwargs)
             if must_raise or addr_bad:
-                attempt(i, fn, where, must="raise")
+                attempt(i, fn, where, must="raise", name=name)
                 continue
 
             def done(ret):
@@ -408,7 +417,7 @@ def check(spec, stats):
                     done(attempt(i, fn, where, must="ok" if valid else "raise", predict=start,
                                  kind="win", obj=c, name=name, min_span=span, ratio=1))
                 elif addr_v % (1 << mm.al) != 0:
-                    attempt(i, fn, where, must="raise")
+                    attempt(i, fn, where, must="raise", name=name)
                 else:
                     start = addr_v
                     valid = start + span <= (1 << mm.aw) and not mm.overlaps(start, start + span)
@@ -422,7 +431,7 @@ def check(spec, stats):
             else:
                 # numeric alignment rule not claimed: either outcome, result validated
                 if addr_v is not None and addr_v % (1 << mm.al) != 0:
-                    attempt(i, fn, where, must="raise")
+                    attempt(i, fn, where, must="raise", name=name)
                 else:
                     done(attempt(i, fn, where, must="either", kind="win", obj=c, name=name,
                                  min_span=size, ratio=ratio, explicit=addr_v))
